@@ -9,7 +9,7 @@ import collections
 import importlib
 import re
 
-PROP_GROUPS = {'C01': ['flow'], 'C07': ['flow'], 'C11': ['join'], 'C02': ['join'], 'C10': ['matcher'], 'C14': ['handlers', 'vloop'], 'C17': ['rows'], 'C13': ['load']}
+PROP_GROUPS = {'C15': ['fields'], 'C01': ['flow'], 'C07': ['flow'], 'C11': ['join'], 'C02': ['join'], 'C10': ['matcher'], 'C14': ['handlers', 'vloop'], 'C17': ['rows'], 'C13': ['load']}
 
 
 # ---------------------------------------------------------------- encoding
@@ -390,6 +390,38 @@ def run_load(ctx, b, n):
     b.flush()
 
 
+def run_fields(ctx, b, n):
+    """the row functions of delete_fields / select_fields / rename_fields"""
+    import copy
+    DL = importlib.import_module('dataflows.processors.delete_fields')
+    SL = importlib.import_module('dataflows.processors.select_fields')
+    RN = importlib.import_module('dataflows.processors.rename_fields')
+    rng = ctx.rng('pycorr-fields')
+    pool = ['a', 'b', 'c', '\xe9', 'a b', 'A']
+
+    class Res:
+        def __init__(self, rows, name):
+            self._rows = rows
+
+            class R:
+                descriptor = {'name': name}
+            self.res = R()
+
+        def __iter__(self):
+            return iter(self._rows)
+    for _ in range(n):
+        rows = [{k: rng.choice([1, 'x', None, True, '']) for k in rng.sample(pool, rng.randint(0, len(pool)))} for _ in range(rng.randint(0, 5))]
+        names = rng.sample(pool + ['zz'], rng.randint(0, 4))
+        b.add('delete_process', [rows, names], real_call(lambda: list(DL.process_resource(copy.deepcopy(rows), list(names)))), case=[rows, names])
+        rname = rng.choice(['r1', 'a.b'])
+        conf = {rname: set(names), 'other': {'q'}} if rng.random() < 0.9 else {'other': {'q'}}
+        obj = {'res': {'descriptor': {'name': rname}}, '__iter__': rows}
+        b.add('select_process', [obj, conf], real_call(lambda: list(SL.process_resource(Res(copy.deepcopy(rows), rname), conf))), case=[rows, sorted(names), rname in conf])
+        mp = {k: rng.choice(pool + ['new', 'zz']) for k in rng.sample(pool, rng.randint(0, 3))}
+        b.add('rename_process', [rows, mp], real_call(lambda: list(RN.process_resource(copy.deepcopy(rows), mp))), case=[rows, mp])
+    b.flush()
+
+
 def opq(kind, v):
     return {'t': 'o', 'k': kind, 'v': v}
 
@@ -545,7 +577,7 @@ def run_flow(ctx, b, n):
     b.flush()
 
 
-RUNNERS = {'flow': run_flow, 'load': run_load, 'vloop': run_vloop, 'join': run_join, 'matcher': run_matcher, 'handlers': run_handlers, 'rows': run_rows}
+RUNNERS = {'fields': run_fields, 'flow': run_flow, 'load': run_load, 'vloop': run_vloop, 'join': run_join, 'matcher': run_matcher, 'handlers': run_handlers, 'rows': run_rows}
 
 
 def run(ctx, groups=None, n=None):
